@@ -145,8 +145,9 @@ def _eq_default(py, sch):
     if isinstance(sch, float) or isinstance(py, float):
         try:
             import numpy as np
-            # schema defaults are float32; generated literals are their shortest repr
-            return np.float32(py) == np.float32(sch)
+            # schema defaults are float32; generated literals are their shortest repr.  Compared by bit
+            # pattern: -0.0 and 0.0 are different defaults (they compare == but compute different results)
+            return np.float32(py).tobytes() == np.float32(sch).tobytes()
         except Exception:
             return False
     return type(py) is type(sch) and py == sch
